@@ -1,2 +1,160 @@
-use crate::ReplaySrc;
-pub fn register(_v: &mut Vec<(&'static str, fn(&mut ReplaySrc))>) {}
+//! C02 — push-encoding helper: minimal push form for every data length.
+use crate::{cov, okf, ReplaySrc, Src};
+use bsv::{OpCodes, Script, VarInt};
+
+/// Minimal push prefix per the script wire format: (bytes, len) or None when no push form exists.
+pub fn spec_push_prefix(n: u64) -> Option<([u8; 5], usize)> {
+    let mut b = [0u8; 5];
+    if n == 0 || n > 0xffff_ffff {
+        None
+    } else if n <= 75 {
+        b[0] = n as u8;
+        Some((b, 1))
+    } else if n <= 0xff {
+        b[0] = 0x4c;
+        b[1] = n as u8;
+        Some((b, 2))
+    } else if n <= 0xffff {
+        b[0] = 0x4d;
+        b[1] = n as u8;
+        b[2] = (n >> 8) as u8;
+        Some((b, 3))
+    } else {
+        b[0] = 0x4e;
+        b[1] = n as u8;
+        b[2] = (n >> 8) as u8;
+        b[3] = (n >> 16) as u8;
+        b[4] = (n >> 24) as u8;
+        Some((b, 5))
+    }
+}
+
+/// get_pushdata_bytes / get_pushdata_prefix_bytes return the minimal prefix for every
+/// length 1..=2^32-1 and refuse lengths above 2^32-1.
+pub fn push_prefix<S: Src>(s: &mut S) {
+    let n = s.u64();
+    s.assume(n >= 1);
+    cov!(n == 75, "75");
+    cov!(n == 76, "76");
+    cov!(n == 255, "255");
+    cov!(n == 256, "256");
+    cov!(n == 65535, "65535");
+    cov!(n == 65536, "65536");
+    cov!(n == 0xffff_ffff, "2^32-1");
+    cov!(n > 0xffff_ffff, "above 2^32-1");
+    let got = okf(Script::get_pushdata_bytes(n as usize));
+    let got2 = okf(Script::get_pushdata_prefix_bytes(n as usize));
+    match spec_push_prefix(n) {
+        Some((b, k)) => {
+            assert!(got.is_some(), "get_pushdata_bytes rejects a length in 1..=2^32-1");
+            assert!(got2.is_some(), "get_pushdata_prefix_bytes rejects a length in 1..=2^32-1");
+            let g = got.unwrap();
+            let g2 = got2.unwrap();
+            assert!(g.len() == k && g2.len() == k, "push prefix is not the minimal form (length)");
+            let mut i = 0;
+            while i < k {
+                assert!(g[i] == b[i] && g2[i] == b[i], "push prefix bytes differ from minimal form");
+                i += 1;
+            }
+        }
+        None => {
+            assert!(got.is_none() && got2.is_none(), "push prefix returned for a length with no push form");
+        }
+    }
+    cov!(true, "end");
+}
+
+/// VarInt::get_pushdata_opcode chooses the push opcode class of the minimal form.
+pub fn push_opcode_class<S: Src>(s: &mut S) {
+    let n = s.u64();
+    cov!(n == 0x4b, "75");
+    cov!(n == 0x4c, "76");
+    cov!(n == 0x100, "256");
+    cov!(n == 0x10000, "65536");
+    let got = VarInt::get_pushdata_opcode(n);
+    let want: Option<u8> = if n <= 75 {
+        None
+    } else if n <= 0xff {
+        Some(0x4c)
+    } else if n <= 0xffff {
+        Some(0x4d)
+    } else {
+        Some(0x4e)
+    };
+    match (got, want) {
+        (None, None) => {}
+        (Some(o), Some(w)) => assert!(o as u8 == w, "get_pushdata_opcode chose the wrong push opcode"),
+        _ => assert!(false, "get_pushdata_opcode direct-push/PUSHDATA class mismatch"),
+    }
+    let _ = OpCodes::OP_0;
+    cov!(true, "end");
+}
+
+/// encode_pushdata(data) = minimal prefix ++ data, for data of length L (concrete L per instance).
+pub fn encode_pushdata_n<S: Src, const L: usize>(s: &mut S) {
+    let data: [u8; L] = s.bytes::<L>();
+    let got = okf(Script::encode_pushdata(&data));
+    assert!(got.is_some(), "encode_pushdata rejects data");
+    let g = got.unwrap();
+    let (b, k) = spec_push_prefix(L as u64).unwrap();
+    assert!(g.len() == k + L, "encode_pushdata output length");
+    let mut i = 0;
+    while i < k {
+        assert!(g[i] == b[i], "encode_pushdata prefix differs from minimal form");
+        i += 1;
+    }
+    let mut j = 0;
+    while j < L {
+        assert!(g[k + j] == data[j], "encode_pushdata payload altered");
+        j += 1;
+    }
+    cov!(true, "end");
+}
+
+pub fn register(v: &mut Vec<(&'static str, fn(&mut ReplaySrc))>) {
+    v.push(("c02_push_prefix", push_prefix::<ReplaySrc>));
+    v.push(("c02_push_opcode_class", push_opcode_class::<ReplaySrc>));
+    v.push(("c02_encode_pushdata_1", encode_pushdata_n::<ReplaySrc, 1>));
+    v.push(("c02_encode_pushdata_75", encode_pushdata_n::<ReplaySrc, 75>));
+    v.push(("c02_encode_pushdata_76", encode_pushdata_n::<ReplaySrc, 76>));
+    v.push(("c02_encode_pushdata_255", encode_pushdata_n::<ReplaySrc, 255>));
+    v.push(("c02_encode_pushdata_256", encode_pushdata_n::<ReplaySrc, 256>));
+}
+
+#[cfg(kani)]
+mod proofs {
+    use super::*;
+    use crate::KaniSrc;
+
+    #[kani::proof]
+    #[kani::unwind(8)]
+    #[kani::stub(std::fmt::format, crate::stubs::fmt_format)]
+    #[kani::stub(<core::io::CustomOwner as core::ops::Drop>::drop, crate::stubs::custom_owner_drop)]
+    fn c02_push_prefix() {
+        push_prefix(&mut KaniSrc)
+    }
+
+    #[kani::proof]
+    #[kani::unwind(4)]
+    #[kani::stub(std::fmt::format, crate::stubs::fmt_format)]
+    fn c02_push_opcode_class() {
+        push_opcode_class(&mut KaniSrc)
+    }
+
+    macro_rules! enc {
+        ($name:ident, $l:expr, $u:expr) => {
+            #[kani::proof]
+            #[kani::unwind($u)]
+            #[kani::stub(std::fmt::format, crate::stubs::fmt_format)]
+            #[kani::stub(<core::io::CustomOwner as core::ops::Drop>::drop, crate::stubs::custom_owner_drop)]
+            fn $name() {
+                encode_pushdata_n::<KaniSrc, $l>(&mut KaniSrc)
+            }
+        };
+    }
+    enc!(c02_encode_pushdata_1, 1, 8);
+    enc!(c02_encode_pushdata_75, 75, 78);
+    enc!(c02_encode_pushdata_76, 76, 79);
+    enc!(c02_encode_pushdata_255, 255, 258);
+    enc!(c02_encode_pushdata_256, 256, 259);
+}
